@@ -8,6 +8,8 @@ import (
 	"fmt"
 	"os"
 	"os/exec"
+	"strconv"
+	"strings"
 	"testing"
 	"time"
 
@@ -117,7 +119,9 @@ var c11First = newPart("C11", "first-calls",
 
 func TestC11_FirstCalls(t *testing.T) {
 	defer c11First.rec().Flush()
-	kinds := []string{"hotp-val", "hotp-gen", "totp-val", "totp-gen", "ocra-val", "ocra-gen", "lookup", "url", "hotp-url", "helpers", "list", "hotp-err", "totp-err", "ocra-err"}
+	// the validators four times per round, once per window width: a limit that is read lazily is not there yet on the first
+	// call, and the code submitted lies inside the window (at its centre or on either edge), so a refusal shows
+	kinds := []string{"hotp-val:1", "hotp-val:2", "hotp-val:3", "hotp-val:10", "totp-val:0", "totp-val:1", "totp-val:3", "totp-val:10", "hotp-gen", "totp-gen", "ocra-val", "ocra-gen", "lookup", "url", "hotp-url", "helpers", "list", "hotp-err", "totp-err", "ocra-err"}
 	i := 0
 	for rep := 0; rep < ev.Pick(2, 12); rep++ {
 		for _, k := range kinds {
@@ -125,12 +129,19 @@ func TestC11_FirstCalls(t *testing.T) {
 			if !ev.Mine(i) {
 				continue
 			}
-			k := k
+			k, width := k, -1
+			if j := strings.IndexByte(k, ':'); j >= 0 {
+				width, _ = strconv.Atoi(k[j+1:])
+				k = k[:j]
+			}
 			c := rapid.Custom(func(t *rapid.T) c11FirstCase {
 				first := drawC11OpOfKind(t, k)
-				if k == "hotp-val" {
-					// the window in every admissible width: a limit that is read lazily is not there yet on the first call
-					first.Skew = rapid.SampledFrom([]int{0, 1, 2, 3}).Draw(t, "firstSkew")
+				if width >= 0 {
+					first.Skew = width
+					first.Dist = rapid.SampledFrom([]int{0, width, -width}).Draw(t, "firstDist")
+					if k == "totp-val" {
+						first.Counter += uint64(30 * (width + 1)) // the window stays above step 0
+					}
 				}
 				c := c11FirstCase{Ops: []c11Op{first}}
 				for n := rapid.IntRange(0, 2).Draw(t, "more"); n > 0; n-- {
